@@ -79,7 +79,7 @@ impl WriteCircuitBreaker {
                 crate::verif::point("cb.allow.after_clock", &[]);
                 let last_failure = self.last_failure_time.load(Ordering::Acquire);
 
-                if now - last_failure >= self.recovery_timeout.as_millis() as u64 {
+                if now.saturating_sub(last_failure) >= self.recovery_timeout.as_millis() as u64 {
                     // Transition to half-open to test recovery
                     self.transition_to_half_open();
                     true
@@ -152,7 +152,7 @@ impl WriteCircuitBreaker {
                 #[cfg(sierradb_verif)]
                 crate::verif::point("cb.recovery.after_clock", &[]);
                 let last_failure = self.last_failure_time.load(Ordering::Acquire);
-                let elapsed = Duration::from_millis(now - last_failure);
+                let elapsed = Duration::from_millis(now.saturating_sub(last_failure));
 
                 if elapsed >= self.recovery_timeout {
                     Some(Duration::ZERO) // Ready to recover now
